@@ -303,6 +303,20 @@ def oracle(case, rec):
             if res['on'][1] is not None:
                 if not valid.any() and res['on'][1].startswith('ValueError'):
                     rec.cls('empty-selection-rejected')
+                    # whatever state the rejected request leaves behind, the pieces must agree with each other: the table of
+                    # "the subset" has one row per cycle the subset vector marks as selected
+                    for tag, C in cont.items():
+                        sv = getattr(C, 'subset_vect', None)
+                        if sv is None:
+                            continue
+                        try:
+                            df = C.get_metric_dataframe(subset=True)
+                        except Exception:
+                            continue
+                        nsel = int((np.asarray(sv) >= 0).sum())
+                        if len(df) != nsel:
+                            raise Violation('C15/after-rejected-selection/table-disagrees-with-subset-vector/cache-' + tag,
+                                            '%d rows for %d selected cycles (conditions %r)' % (len(df), nsel, strs))
                     return False            # documented-ish rejection: stop using this pair
                 raise Violation('C15/pick_cycle_subset/raises', '%r: %s' % (strs, res['on'][1]))
             subset = valid.tolist()
